@@ -298,6 +298,52 @@ theorem _root_.KafVerif.C43.contact_refreshes (s s' : State) (g mid gen : Nat) (
           · simp [lookup_insert]
           · exact hclock
 
+/-- **C43 (every processed join refreshes the session).** Whatever branch JoinGroup takes (new member,
+re-join, rebalance started or continued), the member it answers has `lastHeartbeat = now` afterwards. -/
+theorem _root_.KafVerif.C43.join_refreshes (s s' : State) (g mid : Nat) (se rb : Int) (pt : Nat) (pr : Option (Nat × List Nat)) (nk : Nat)
+    (code : Int) (gen ld me pn : Nat) (ms : List (Nat × List Nat))
+    (h : join fixed s g mid se rb pt pr nk = (s', .join code gen ld me pn ms)) :
+    ∃ st mem, lookup s'.groups g = some st ∧ lookup st.members me = some mem ∧ mem.lastHb = s.clock := by
+  unfold join at h
+  cases he : ensureGroup fixed s g with
+  | none => rw [he] at h; simp at h
+  | some x =>
+    obtain ⟨s1, st0⟩ := x
+    rw [he] at h
+    have hclock : s1.clock = s.clock := (ensureGroup_frame he).clock
+    simp only [joinReply, Prod.mk.injEq, Reply.join.injEq] at h
+    obtain ⟨hs, _, _, _, hme, _, _⟩ := h
+    refine ⟨(joinCore fixed st0 mid se rb pt pr nk s1.clock).1, ?_⟩
+    -- the member record through joinMember / joinPhase / joinMark / joinFinish
+    have key : ∃ mem, lookup (joinCore fixed st0 mid se rb pt pr nk s1.clock).1.members
+        (joinCore fixed st0 mid se rb pt pr nk s1.clock).2.1 = some mem ∧ mem.lastHb = s1.clock := by
+      unfold joinCore
+      simp only
+      obtain ⟨m', hmem, _, _, _, _, _, _, hhb, _, _⟩ := joinMember_spec st0 mid se pt pr nk s1.clock
+      generalize joinMember st0 mid se pt pr nk s1.clock = jm at hmem
+      obtain ⟨stA, memberID, ex, prev⟩ := jm
+      simp only at hmem ⊢
+      have hA : lookup stA.members memberID = some m' := by rw [hmem, lookup_insert]; simp
+      have hneA : stA.members ≠ [] := by rw [hmem]; exact insert_ne_nil _ _ _
+      have h1 : ∃ m1, lookup (joinPhase fixed stA memberID ex prev (topicsOfProto pr) (timeoutOf rb) s1.clock).members memberID = some m1 ∧
+          m1.lastHb = s1.clock := by
+        rcases joinPhase_cases fixed stA memberID ex prev (topicsOfProto pr) (timeoutOf rb) s1.clock with
+          ⟨st', he', hm', _, _, _⟩ | ⟨he', _⟩ | ⟨he', _⟩
+        · rw [he', (startRebalance_of_nonempty st' _ _ (by rw [hm']; exact hneA)).2.2.2, lookup_resetJoins, hm', hA]
+          exact ⟨_, rfl, hhb⟩
+        · rw [he']; exact ⟨m', hA, hhb⟩
+        · rw [he']; exact ⟨m', hA, hhb⟩
+      obtain ⟨m1, hm1, hhb1⟩ := h1
+      generalize joinPhase fixed stA memberID ex prev (topicsOfProto pr) (timeoutOf rb) s1.clock = st1 at hm1 ⊢
+      rw [(joinFinish_spec st1 memberID).1, (joinMark_spec st1 memberID).1, lookup_setJoinGen, hm1]
+      refine ⟨_, rfl, ?_⟩
+      simp only [if_true]
+      exact hhb1
+    obtain ⟨mem, hmem, hhb⟩ := key
+    refine ⟨mem, ?_, by rw [← hme]; exact hmem, by rw [hhb, hclock]⟩
+    rw [← hs]
+    simp [persist_groups, setGroup, lookup_insert]
+
 /-- **C43 (pre-fix defect, witness).** Before the fix a member with a 10 s session that heartbeats
 7 s after its join (answered REBALANCE_IN_PROGRESS: the leader has not synced yet) is expired by
 the cleanup 7 s later — 7 s after its last accepted contact; the fixed code keeps it. -/
